@@ -124,6 +124,14 @@ class PyObjV:
         self.fields = fields
 
 
+class ImpliesV:
+    """implies(A, B) with a quantified antecedent: B is evaluated (thunk) once A has been assumed"""
+
+    def __init__(self, antecedent, thunk):
+        self.antecedent = antecedent
+        self.thunk = thunk
+
+
 class OptV:
     """value of an optional scalar field: `isnone` (z3 Bool) and the value when present; forks only when it is used as a number"""
 
@@ -1718,6 +1726,7 @@ class Interp:
         result_terms = []
         n_pc = len(self.pc)
         last = None
+        value_ops = []
         try:
             for sub in node.values:
                 try:
@@ -1729,10 +1738,18 @@ class Interp:
                     result_terms.append(not is_and)
                     break
                 t = self.truth(v)
+                if value_ops is not None:
+                    if (is_z3(v) and z3.is_arith(v)) or (isinstance(v, (int, float)) and not isinstance(v, bool)):
+                        value_ops.append((t if not isinstance(t, bool) else z3.BoolVal(t), v))
+                    else:
+                        value_ops = None
                 if isinstance(t, bool):
                     if is_and and not t:
                         return v if not result_terms else False
                     if not is_and and t:
+                        if result_terms and value_ops is not None:
+                            last = v
+                            break
                         return v if not result_terms else True
                     last = v
                     continue
@@ -1749,6 +1766,12 @@ class Interp:
             return last
         if any(isinstance(t, (ForallV, ExistsV)) for t in result_terms):
             return self._bool_combine(is_and, result_terms)
+        if value_ops is not None:
+            # `a or b` / `a and b` on numbers return one of the operands
+            res = value_ops[-1][1]
+            for t, v in reversed(value_ops[:-1]):
+                res = ite(t, v, res) if not is_and else ite(t, res, v)
+            return res
         return conj(*result_terms) if is_and else disj(*result_terms)
 
     def _bool_combine(self, is_and, terms):
